@@ -443,7 +443,30 @@ def apply_op(o, h, handles):
     return "n/a"
 
 
-def compare_runs(ctx, prog):
+def compare_runs(ctx, prog, confirm=True):
+    """every failure is confirmed by running the program once more from a clean cache before it is reported: a
+    violation has to be replayable from the program alone"""
+    if confirm:
+        probe = Probe(ctx)
+        compare_runs(probe, prog, confirm=False)
+        if probe.failed:
+            cache.wrappers.clear()
+            gc.collect()
+            again = Probe(ctx)
+            compare_runs(again, prog, confirm=False)
+            if not again.failed:
+                ctx.count(1, "difference not reproducible when the program is re-run alone (not reported)")
+                ctx.notes.append("a difference seen once did not reproduce on re-running the same program: %s" % probe.failed[0][0][:80])
+                return
+            for what, case in again.failed:
+                ctx.fail(what, case, classify)
+        for n, kind in probe.counts:
+            ctx.count(n, kind)
+        for key in probe.keys:
+            ctx.nontrivial_case(key)
+        for smp in probe.samples:
+            ctx.sample(smp, limit=4)
+        return
     base, left0, unr0 = run_program(prog, "none")
     emptied = any(o["op"] == "set_content" and not o["txt"] for o in prog["ops"])
     if left0:
@@ -476,6 +499,26 @@ def compare_runs(ctx, prog):
                           "emptied_head": emptied, "unraisable": bool(unr)}, classify)
                 break
     ctx.sample({"part": "program", "program": prog, "final_tree": base[-1]["tree"] if base else None}, limit=4)
+
+
+class Probe:
+    """collects what compare_runs would report"""
+
+    def __init__(self, ctx):
+        self.failed, self.counts, self.keys, self.samples = [], [], [], []
+        self.cov = {"samples": []}
+
+    def fail(self, what, case, classify=None):
+        self.failed.append((what, case))
+
+    def count(self, n=1, kind=None):
+        self.counts.append((n, kind))
+
+    def nontrivial_case(self, key):
+        self.keys.append(key)
+
+    def sample(self, case, limit=5):
+        self.samples.append(case)
 
 
 # =============================================================================================== known findings
